@@ -108,6 +108,42 @@ theorem base_chain_any_depth (h : TyName) (v w : V) (k : Nat) (hs : ¬ isSpecial
     (hk : V.baseIter k v = some w) (hw : typeName w = h) : check h false v = true :=
   (check_spec h false v).mpr (Or.inr (Or.inr (Or.inr (Or.inr (Or.inr ⟨hs, k, w, hk, hw⟩)))))
 
+/-! ## Cyclic `@base` chains (outside the tree universe `V`; findings F-C16-1, F-C16-2) -/
+
+/-- Negation witness: on the one-node cycle (a map whose `@base` is itself, type `Bar`) the loop of
+`compare_value_type` has not answered the hint `Foo` after any number of steps. Replayed on the
+implementation by the harness (known finding F-C16-2). -/
+theorem base_walk_cyclic_diverges :
+    ∀ fuel, walkBase (fun _ => [66, 97, 114]) (fun n => some n) [70, 111, 111] fuel 0 = none := by
+  intro fuel
+  induction fuel with
+  | zero => rfl
+  | succ k ih => simpa [walkBase] using ih
+
+/-- What does hold for every graph: if the chain from `n` ends (reaches a node without `@base`)
+after `k` steps, the loop answers within `k + 1` steps. `_partial`: cyclic chains are excluded —
+there the property fails (`base_walk_cyclic_diverges`). -/
+theorem base_walk_terminates_partial (ty : Nat → TyName) (base : Nat → Option Nat) (h : TyName) :
+    ∀ k n e, reaches base k n e → base e = none → ∃ b, walkBase ty base h (k + 1) n = some b := by
+  intro k
+  induction k with
+  | zero =>
+    intro n e hr he
+    simp only [reaches] at hr
+    subst hr
+    exact ⟨false, by simp [walkBase, he]⟩
+  | succ k ih =>
+    intro n e hr he
+    obtain ⟨m, hm, hr'⟩ := hr
+    obtain ⟨b, hb⟩ := ih m e hr' he
+    by_cases hty : ty m = h
+    · exact ⟨true, by simp [walkBase, hm, hty]⟩
+    · exact ⟨b, by rw [walkBase]; simp only [hm, hty, if_false]; exact hb⟩
+
+example : reaches (fun n => if n < 3 then some (n + 1) else none) 3 0 3 ∧
+    (fun n => if n < 3 then some (n + 1) else none) 3 = none := by
+  refine ⟨⟨1, rfl, 2, rfl, 3, rfl, rfl⟩, rfl⟩
+
 /-! ## Assertions: the single helper, and every position that uses it -/
 
 theorem assertHint_some (c : Bool) (h : Hint) (v : V) (s : St) :
